@@ -66,6 +66,8 @@ type Node struct {
 	States   map[uint64]struct{}
 	Samples  []json.RawMessage
 	guard    *guardBuf
+	// KnownExamples holds the first scenario per open known finding this process met.
+	KnownExamples []*Replay
 }
 
 func buildKey(prog string, mask int, old bool) string {
@@ -158,7 +160,10 @@ type Ctx struct {
 	hash uint64
 }
 
-func (c *Ctx) Count(name string, d int64) { c.N.Counters[name] += d }
+func (c *Ctx) Count(name string, d int64) {
+	c.N.Counters[name] += d
+	c.Log("#", name, d)
+}
 
 func (c *Ctx) State(parts ...string) {
 	h := fnv.New64a()
@@ -167,6 +172,7 @@ func (c *Ctx) State(parts ...string) {
 		h.Write([]byte{0})
 	}
 	c.N.States[h.Sum64()] = struct{}{}
+	c.Log("@", h.Sum64())
 }
 
 // Log folds an event into the run's log hash. It never draws from the PRNG.
@@ -179,6 +185,9 @@ func (c *Ctx) Log(parts ...interface{}) {
 	h.Write(b[:])
 	fmt.Fprint(h, parts...)
 	c.hash = h.Sum64()
+	if traceLog {
+		fmt.Fprintln(os.Stderr, "LOG", c.Run, fmt.Sprint(parts...))
+	}
 }
 
 func (c *Ctx) Sample(v interface{}) {
@@ -190,6 +199,8 @@ func (c *Ctx) Sample(v interface{}) {
 		c.N.Samples = append(c.N.Samples, b)
 	}
 }
+
+var traceLog = os.Getenv("VERIF_TRACE") != ""
 
 // property table
 type propFn func(c *Ctx) *Replay
@@ -216,6 +227,12 @@ func Main() {
 	curFile := flag.String("cur", "", "file that names the run in flight")
 	flag.Parse()
 	runtime.GOMAXPROCS(1)
+	if s := os.Getenv("VERIF_NODE_GOMAXPROCS"); s != "" {
+		var v int
+		if _, err := fmt.Sscan(s, &v); err == nil && v > 0 {
+			runtime.GOMAXPROCS(v) // determinism self-test only
+		}
+	}
 
 	if *replayFile != "" {
 		os.Exit(replayMain(*replayFile))
@@ -254,7 +271,7 @@ func Main() {
 		if *runlog {
 			runHashes = append(runHashes, fmt.Sprintf("%d:%016x", i, c.hash))
 		}
-		if rp != nil {
+		if rp != nil && rp != dupMarker {
 			rp.Format = "verif-replay/1"
 			rp.Property = batch.Property
 			rp.Seed = batch.Seed
@@ -264,6 +281,9 @@ func Main() {
 			enc.Encode(Report{Kind: "violation", Run: i, Replay: rp})
 			n.Counters["violations"]++
 		}
+	}
+	for _, rp := range n.KnownExamples {
+		enc.Encode(Report{Kind: "violation", Run: rp.Run, Replay: rp})
 	}
 	states := make([]uint64, 0, len(n.States))
 	for s := range n.States {
